@@ -6,7 +6,7 @@ TRUSTED = ['Go stdlib net/url (Parse/String facts supplied by the harness oracle
 ASSUMPTIONS = ['format constraints the reader enforces and the writer does not (DESIGN 5, C03 D): exchange URLs without fragment/userinfo, valid UTF-8, re-parsing to themselves; status 100..999; ASCII header names not starting with ":" and distinct after lower-casing; ASCII values; b1 has a primary URL']
 RULE = ('bundles: versions b1/b2 x 0..4 exchanges x URL shapes (ports, escapes, queries, relative) x header maps x status 100..999 x body lengths around 23/24, 255/256, 65535/65536 x optional primary/manifest/signatures x b1 Variants sets '
         '(1-3 axes, incl. multi-key Variant-Key, incomplete and overlapping coverage); compared ops: bundle.write (both destination kinds), bundle.read of the written bytes, re-write of what was read (fixpoint), second read; '
-        'histories: write/read cycles of length 2; non-trivial = bundle with at least one exchange')
+        'header fields describing the body as served (Content-Length in every relation to the stored length and every integer spelling, codings, ranges, digests, media types, validators) on exchanges whose stored body differs; histories: write/read cycles of length 2; non-trivial = bundle with at least one exchange')
 EXHAUSTIVE = {}
 
 agree = Base.agree; signature = Base.signature; explain = Base.explain
@@ -27,6 +27,52 @@ ODD_BUNDLE_URLS = [(b'https://example.com/files/a%2Fb.html', b'https://example.c
                    (b'https://example.com:443/d', b'https://example.com/d'), (b'https://example.com/a//b', b'https://example.com/a/b'), (b'https://example.com/a/./b', b'https://example.com/a/b'),
                    (b"https://example.com/it's!/*.txt", b"https://example.com/it%27s%21/%2A.txt"), (b'https://example.com/wiki/Go_(game)', b'https://example.com/wiki/Go_%28game%29'),
                    (b'https://example.com', b'https://example.com/')]
+
+
+def body_describing_headers(ver):
+    """header fields that describe the body AS SERVED (Content-Length, Content-Encoding, Content-Range, digests, validators ...) and go
+    stale or were never true for the body as stored: the writer stores map and body as given, the reader has to give them back.
+    Content-Length: every relation to len(body) (equal, one less / more, 0 with a body, a number with no body), the edges of the
+    integer syntaxes a parser might accept (+N, -N, leading zeros, 2^31, 2^32, 2^63-1, 2^63, 2^64), repeated values, key spellings;
+    the statuses that legitimately carry a length without a body (204, 304, HEAD-like 200, 206)"""
+    out = []
+    U = b'https://example.com/'
+    ctl = exch(U + b'control', 200, [(b'Content-Length', [b'7'])], b'control')
+    bodies = [b'', b'x', b'The quick brown fox jumps over', b'z' * 300]
+    for body in bodies:
+        n = len(body)
+        vals = [str(v).encode() for v in sorted({n, max(n - 1, 0), n + 1, 0, 1, 20, 2 * n + 1, 255, 256, 65536, 2**31 - 1, 2**31, 2**32, 2**63 - 1, 2**63, 2**64 - 1, 2**64})]
+        vals += [b'+%d' % n, b'+%d' % (n + 1), b'-%d' % (n + 1), b'-0', b'-1', b'0%d' % (n + 1), b'000', b'%d ' % (n + 1), b' %d' % (n + 1), b'%d.0' % (n + 1), b'%de0' % (n + 1), b'0x10', b'1_0', b'', b'abc', b'%d, %d' % (n + 1, n + 1)]
+        for i, v in enumerate(vals):
+            out.append(bundle(ver, U, None, None, [exch(U, 200, [(b'Content-Type', [b'text/plain']), (b'Content-Length', [v])], body), ctl]))
+        # repeated field lines, key spellings (hand-made http.Header), the field alone in the map
+        for hs in ([(b'Content-Length', [b'%d' % (n + 1), b'%d' % (n + 1)])], [(b'Content-Length', [b'%d' % n, b'%d' % (n + 1)])], [(b'Content-Length', [b'%d' % (n + 1), b'%d' % n])],
+                   [(b'content-length', [b'%d' % (n + 1)])], [(b'CONTENT-LENGTH', [b'%d' % (n + 1)])], [(b'Content-length', [b'%d' % (n + 2)])],
+                   [(b'X-Content-Length', [b'%d' % (n + 1)])], [(b'Content-Length', [b'%d' % (n + 1)]), (b'Transfer-Encoding', [b'chunked'])]):
+            out.append(bundle(ver, U, None, None, [ctl, exch(U, 200, hs, body)]))
+    # a length without a body where HTTP says so, and a partial body with the full length
+    for st, hs, body in ((304, [(b'Content-Length', [b'1234']), (b'Etag', [b'"v1"'])], b''), (204, [(b'Content-Length', [b'0'])], b''), (204, [(b'Content-Length', [b'5'])], b''),
+                         (200, [(b'Content-Length', [b'1234']), (b'X-Method', [b'HEAD'])], b''), (206, [(b'Content-Length', [b'10']), (b'Content-Range', [b'bytes 0-9/100'])], b'0123456789'),
+                         (206, [(b'Content-Length', [b'100']), (b'Content-Range', [b'bytes 0-9/100'])], b'0123456789'), (416, [(b'Content-Range', [b'bytes */100'])], b''),
+                         (301, [(b'Content-Length', [b'178']), (b'Location', [b'https://example.com/new'])], b''), (100, [(b'Content-Length', [b'3'])], b''), (999, [(b'Content-Length', [b'3'])], b'abcd')):
+        out.append(bundle(ver, U, None, None, [exch(U, st, hs, body), ctl]))
+    # other fields a "sanity check" could hold against the stored body: codings (body stored decoded / not a gzip stream), digests that
+    # do not match, media types that do not match the bytes, ranges, validators and dates in odd forms, framing fields
+    png = bytes.fromhex('89504e470d0a1a0a') + b'not really'
+    gz = bytes.fromhex('1f8b0800000000000003') + b'truncated'
+    for hs, body in (([(b'Content-Encoding', [b'gzip']), (b'Content-Length', [b'20'])], b'stored decoded, served gzipped'), ([(b'Content-Encoding', [b'gzip'])], b'plain text'), ([(b'Content-Encoding', [b'gzip'])], gz),
+                     ([(b'Content-Encoding', [b'br'])], b''), ([(b'Content-Encoding', [b'mi-sha256-03'])], b'no records here'), ([(b'Content-Encoding', [b'identity', b'gzip'])], b'x'), ([(b'Content-Encoding', [b'zstd, unknown-coding'])], b'x'),
+                     ([(b'Transfer-Encoding', [b'chunked'])], b'5\r\nhello\r\n0\r\n\r\n'), ([(b'Transfer-Encoding', [b'chunked'])], b'not chunked'), ([(b'Trailer', [b'Expires'])], b'x'), ([(b'Connection', [b'close']), (b'Keep-Alive', [b'timeout=5'])], b'x'),
+                     ([(b'Digest', [b'mi-sha256-03=AAAAAAAAAAAAAAAAAAAAAAAAAAAAAAAAAAAAAAAAAAA='])], b'digest of something else'), ([(b'Digest', [b'sha-256=AAAAAAAAAAAAAAAAAAAAAAAAAAAAAAAAAAAAAAAAAAA='])], b'x'), ([(b'Digest', [b'garbage'])], b'x'),
+                     ([(b'Content-Md5', [b'AAAAAAAAAAAAAAAAAAAAAA=='])], b'x'), ([(b'Repr-Digest', [b'sha-256=:AAAA:'])], b'x'), ([(b'Content-Digest', [b'sha-512=:AAAA:'])], b''),
+                     ([(b'Content-Type', [b'text/html'])], png), ([(b'Content-Type', [b'image/png'])], b'<!DOCTYPE html><p>not a png'), ([(b'Content-Type', [b'application/json'])], b'{not json'), ([(b'Content-Type', [b''])], b'x'),
+                     ([(b'Content-Type', [b'text/html; charset=utf-8'])], b'\xff\xfe not utf-8'), ([(b'Content-Type', [b'not a media type'])], b'x'), ([(b'Content-Type', [b'text/html', b'text/plain'])], b'x'), ([(b'X-Content-Type-Options', [b'nosniff'])], png),
+                     ([(b'Content-Range', [b'bytes 5-1/3'])], b'x'), ([(b'Accept-Ranges', [b'bytes'])], b'x'), ([(b'Content-Disposition', [b'attachment; filename="a.txt"'])], b'x'), ([(b'Content-Location', [b'/elsewhere'])], b'x'),
+                     ([(b'Etag', [b'W/"weak"'])], b'x'), ([(b'Etag', [b'unquoted'])], b'x'), ([(b'Last-Modified', [b'not a date'])], b'x'), ([(b'Date', [b'Thu, 01 Jan 1970 00:00:00 GMT'])], b'x'), ([(b'Expires', [b'0'])], b'x'), ([(b'Expires', [b'-1'])], b'x'),
+                     ([(b'Age', [b'-1'])], b'x'), ([(b'Age', [b'99999999999999999999'])], b'x'), ([(b'Retry-After', [b'soon'])], b'x'), ([(b'Location', [b'https://example.com/elsewhere'])], b'a 200 with a Location'), ([(b'Set-Cookie', [b'a=b', b'c=d'])], b'x'),
+                     ([(b'Cache-Control', [b'no-store'])], b'x'), ([(b'Vary', [b'*'])], b'x'), ([(b'Link', [b'<https://example.com/s.css>;rel=preload;as=style'])], b'x'), ([(b'Signature', [b'garbage'])], b'x'), ([(b'Status', [b'404'])], b'x'), ([(b'Content-Length', [b'1']), (b'Content-Encoding', [b'gzip']), (b'Digest', [b'x']), (b'Content-Range', [b'bytes 0-0/1'])], b'')):
+        out.append(bundle(ver, U, None, None, [exch(U, 200, hs, body), ctl]))
+    return out
 
 
 def gen_bundles(rng, w, thorough):
@@ -100,6 +146,8 @@ def gen_bundles(rng, w, thorough):
                 for a2 in (None, 'nil:nil', f'nil:{hexs(b"SCT-OF-INTERMEDIATE")}', f'{hexs(b"o2")}:nil'):
                     auths = f'{k1_["cert"]}:{a1}' + (f'+{k2_["cert"]}:{a2}' if a2 else '')
                     out.append(bundle(ver, b'https://example.com/', None, f'{auths}/0:{hexs(b"sig")}:{hexs(b"signed")}', [exch(b'https://example.com/', 200, [], b'x')]))
+        # header fields that describe the body as served and do not (or no longer) match the body as stored
+        out += body_describing_headers(ver)
         # optional / positional fields left out (b1: the primary URL is a positional element of the top-level array)
         out.append(bundle(ver, None, None, None, [exch(b'https://example.com/', 200, [], b'x')]))
         out.append(bundle(ver, None, b'https://example.com/m' if ver == 'b1' else None, None, []))
